@@ -42,9 +42,36 @@ func Error_type(vtype reflect.Type) error {
 	return &json.UnsupportedTypeError{Type: vtype}
 }
 
+// excerpt bounds the piece of user data quoted in an error message: at most
+// n bytes around pos, with "..." where something was left out.
+func excerpt(s string, pos int, n int) string {
+	if len(s) <= n {
+		return s
+	}
+	if pos > len(s) {
+		pos = len(s)
+	}
+	p := pos - n/2
+	if p < 0 {
+		p = 0
+	}
+	q := p + n
+	if q > len(s) {
+		p, q = len(s)-n, len(s)
+	}
+	out := s[p:q]
+	if p > 0 {
+		out = "..." + out
+	}
+	if q < len(s) {
+		out += "..."
+	}
+	return out
+}
+
 func Error_number(number json.Number) error {
 	return &json.UnsupportedValueError{
-		Str:   "invalid number literal: " + strconv.Quote(string(number)),
+		Str:   "invalid number literal: " + strconv.Quote(excerpt(string(number), 0, 64)),
 		Value: reflect.ValueOf(number),
 	}
 }
@@ -54,7 +81,7 @@ func Error_unsuppoted(typ *rt.GoType) error {
 }
 
 func Error_marshaler(ret []byte, pos int) error {
-	return fmt.Errorf("invalid Marshaler output json syntax at %d: %q", pos, ret)
+	return fmt.Errorf("invalid Marshaler output json syntax at %d: %q", pos, excerpt(rt.Mem2Str(ret), pos, 64))
 }
 
 const (
